@@ -313,7 +313,14 @@ func c02History(r *vkit.Run, caseNo int, rg *vkit.Rand, all bool) {
 	live, store, work := filepath.Join(root, "live"), filepath.Join(root, "img"), filepath.Join(root, "work")
 	os.MkdirAll(store, 0o755)
 	os.MkdirAll(work, 0o755)
-	s, err := sk.Open(live, sk.Opts{})
+	// one history in three rolls its WAL segment every few writes: the write that triggers the
+	// roll must be as durable at its acknowledgement as any other
+	lopts := sk.Opts{}
+	if caseNo%3 == 2 {
+		lopts.WALSegmentSize = rg.Range(150, 700)
+		r.Event("histories_with_small_wal_segments", 1)
+	}
+	s, err := sk.Open(live, lopts)
 	if err != nil {
 		r.T.Fatalf("open: %v", err)
 	}
